@@ -355,7 +355,8 @@ func c13Close(c *Ctx) {
 					continue
 				}
 			}
-			if _, isRet := st.(*ast.ReturnStmt); !isRet {
+			// anything else at top level (logging, counters) is fine as long as it releases nothing
+			if txt := core.FullStr(st); strings.Contains(txt, ".conn.Close()") || strings.Contains(txt, ".releaseTrackedUdpConnState()") || strings.Contains(txt, "drainRelease()") {
 				outside = true
 			}
 		}
